@@ -554,8 +554,9 @@ class Mutations:
 
         mutate_attr, mutate_param = hp_config.sample()
 
-        if mutate_param.value is None:
-            mutate_param.value = getattr(individual, mutate_attr)
+        # Always start from the individual's own current value: the configuration object
+        # (and the value it caches) may be shared with other members of the population
+        mutate_param.value = getattr(individual, mutate_attr)
 
         # Randomly grow or shrink hyperparameters by specified factors
         new_value = mutate_param.mutate()
